@@ -2,6 +2,7 @@ package main
 
 import (
 	"fmt"
+	"sort"
 	"strings"
 
 	"github.com/miekg/dns"
@@ -129,6 +130,24 @@ func runC08(c *Ctx) {
 		}
 		namePool = nil
 		c08Msg(c, "limit16384", m, true)
+	}
+	// hand-built records: the typed zero value of every registered type (nil slices, empty strings, nil addresses —
+	// shapes that neither NewRR nor Unpack ever produce), alone and several in one message
+	var codes []int
+	for code := range dns.TypeToRR {
+		codes = append(codes, int(code))
+	}
+	sort.Ints(codes)
+	for _, code := range codes {
+		for _, n := range []int{1, 2, 3} {
+			m := new(dns.Msg)
+			for i := 0; i < n; i++ {
+				rr := dns.TypeToRR[uint16(code)]()
+				*rr.Header() = dns.RR_Header{Name: "x.example.", Rrtype: uint16(code), Class: 1, Ttl: 1}
+				m.Answer = append(m.Answer, rr)
+			}
+			c08Msg(c, "zero-values", m, false)
+		}
 	}
 	// records whose last field is empty (boundary of the pack buffer)
 	for _, s := range []string{`x. 1 IN CAA 0 issue ""`, `x. 1 IN URI 1 1 ""`, `x. 1 IN TXT ""`, `x. 1 IN NULL`, `x. 1 IN HINFO "" ""`, `. 0 IN OPT`, `x. 1 IN SPF ""`} {
